@@ -50,7 +50,7 @@ def cstr(b):
     return "(" + " ++ ".join(chunks) + ")"
 
 USER = "alice@example.com"
-CLS_CODES = {0: None, 2: "bare_cr_header"}
+CLS_CODES = {0: None}
 
 # ---------------------------------------------------------------------------
 # generators
@@ -333,43 +333,13 @@ def render_request(rng, items):
 
 
 def shape_class(items, fail):
-    """class of the known 'requested item appears once with its own value'
-    deviations; narrow: decided by WHICH requested item failed and HOW, and by
-    the combination it was requested in"""
+    """the one remaining 'requested item appears once under its own name' deviation:
+    a requested RFC822 is answered as BODY[] (raven's own test suite asserts it)"""
     if not items or not fail or fail[1] is None:
         return None
     kind, j = fail
-    it = items[j]
-    rend = [render_item(i).upper() for i in items]
-    simple = [i["k"] for i in items if i["k"] != "SEC"]
-    secs = [(n, i) for n, i in enumerate(items) if i["k"] == "SEC"]
-    any_partial = any(i["partial"] for _, i in secs)
-    if kind == "missing":
-        if it["k"] == "BODY" and any(("BODY[" in r or "BODY.PEEK" in r or "BODYSTRUCTURE" in r) for n, r in enumerate(rend) if n != j):
-            return "item_suppressed"
-        if it["k"] == "RFC822":
-            if any(x in simple for x in ("RFC822.SIZE", "RFC822.HEADER", "RFC822.TEXT")):
-                return "item_suppressed"
-            return "rfc822_renamed"
-        if it["k"] == "SEC" and it["sec"][0] == "HEADER" and any(i["sec"][0] == "FIELDS" for _, i in secs):
-            return "item_suppressed"
-        if it["k"] == "SEC" and it["sec"][0] == "FIELDS" and any(i["sec"][0] == "FIELDS" and n != j for n, i in secs):
-            return "item_suppressed"
-        if it["k"] == "SEC" and it["sec"][0] in ("HEADER", "ALL", "TEXT") and any(i["sec"][0] == it["sec"][0] and n != j for n, i in secs):
-            # each handler answers once: the same section requested twice (with and without a range)
-            return "item_suppressed" if not it["partial"] else "partial_range"
-        if it["k"] == "SEC" and it["partial"]:
-            return "partial_range"
-        if it["k"] == "SEC" and it["sec"][0] == "PART":
-            # the same numbered part requested twice (with and without a range / PEEK): names collide
-            same = [i for n, i in secs if n != j and i["sec"][0] == "PART" and i["sec"][1:] == it["sec"][1:]]
-            if same and any_partial:
-                return "partial_range"
-    if kind == "value" and it["k"] == "SEC":
-        if it["sec"][0] == "TEXT" and any_partial:
-            return "partial_range"
-        if it["partial"] and it["sec"][0] in ("HEADER", "ALL", "FIELDS"):
-            return "partial_range"
+    if kind == "missing" and items[j]["k"] == "RFC822":
+        return "rfc822_renamed"
     return None
 
 
@@ -667,6 +637,8 @@ def nstring(t):
         return True, None
     if isinstance(t, bytes) and T.is_quoted_strict(t):
         return True, T.unquote(t)
+    if isinstance(t, bytes) and T.is_literal_strict(t):
+        return True, T.literal_payload(t)
     return False, None
 
 
@@ -778,6 +750,8 @@ def struct_ok(v, depth=0):
         return True
     if v.startswith(b'"'):
         return T.is_quoted_strict(v)
+    if v.startswith(b"{"):
+        return T.is_literal_strict(v)
     if v.startswith(b"(") and v.endswith(b")"):
         if v == b"()":
             return False
@@ -899,8 +873,6 @@ def coq_env(name, e):
 
 
 COQ_EVAL = """
-Definition cls_code (o : option finding) : nat :=
-  match o with None => 0 | Some bare_cr_header => 2 | Some _ => 5 end.
 Definition items_of (uidmode : bool) (arg : str) : str :=
   if uidmode then uid_fetch_items arg else fetch_items arg.
 Definition seq_of (obs : str) : nat := Z.to_nat (digits_val (fst (span_digits (skipn 2 obs) [])) 0).
@@ -911,8 +883,7 @@ Definition model_code (c : bool * str * fenv * str) : nat :=
   | Some r => if str_eqb r obs then 0 else 1
   | None => 2
   end.
-Definition cls_of (c : bool * str * fenv * str) : nat :=
-  let '(u, arg, e, obs) := c in cls_code (classify_fetch (items_of u arg) e).
+Definition cls_of (c : bool * str * fenv * str) : nat := 0.
 (* hypothesis of c13_fetch_assembly_ok on the model's own contributions *)
 Definition okb_of (c : bool * str * fenv * str) : bool :=
   let '(u, arg, e, obs) := c in
@@ -987,17 +958,17 @@ def run_calls(chk, n):
     body += "Definition q_diff := Eval vm_compute in diff_positions ostr_eqb 0 (map snd q_cases) (map (fun c => Some (quote_or_nil (fst c))) q_cases).\nPrint q_diff.\n"
     # spec on the IMPLEMENTATION's output: one token, decodes to the input (clean, non-empty inputs)
     body += ("Definition q_spec := Eval vm_compute in diff_positions Bool.eqb 0 (map (fun _ => true) q_cases) "
-             "(map (fun c => match snd c with Some o => negb (clean (fst c)) || (tokb o && match fst c with [] => true | _ => ostr_eqb (unquote o) (Some (fst c)) end) | None => false end) q_cases).\nPrint q_spec.\n")
+             "(map (fun c => match snd c with Some o => tokb o && match fst c with [] => true | _ => if clean (fst c) then ostr_eqb (unquote o) (Some (fst c)) else str_eqb o (lit_text (fst c)) end | None => false end) q_cases).\nPrint q_spec.\n")
     body += "Definition a_cases : list (str * option str) := [\n%s].\n" % ";\n".join("(%s, %s)" % (cstr(i), optstr(o)) for i, o in zip(a_in, a_out))
     body += "Definition a_diff := Eval vm_compute in diff_positions ostr_eqb 0 (map snd a_cases) (map (fun c => parse_address_list (fst c)) a_cases).\nPrint a_diff.\n"
     body += ("Definition a_spec := Eval vm_compute in diff_positions Bool.eqb 0 (map (fun _ => true) a_cases) "
-             "(map (fun c => match snd c with Some o => negb (clean (fst c)) || tokb o | None => true end) a_cases).\nPrint a_spec.\n")
+             "(map (fun c => match snd c with Some o => tokb o | None => true end) a_cases).\nPrint a_spec.\n")
     body += "Definition h_cases : list (str * str * option str) := [\n%s].\n" % ";\n".join("(%s, %s, %s)" % (cstr(m), cstr(h), optstr(o)) for (m, h), o in zip(h_in, h_out))
     body += "Definition h_diff := Eval vm_compute in diff_positions ostr_eqb 0 (map snd h_cases) (map (fun c => Some (extract_header (fst (fst c)) (snd (fst c)))) h_cases).\nPrint h_diff.\n"
     body += "Definition e_cases : list (str * option str) := [\n%s].\n" % ";\n".join("(%s, %s)" % (cstr(i), optstr(o)) for i, o in zip(e_in, e_out))
     body += "Definition e_diff := Eval vm_compute in diff_positions ostr_eqb 0 (map snd e_cases) (map (fun c => build_envelope (fst c)) e_cases).\nPrint e_diff.\n"
     body += ("Definition e_spec := Eval vm_compute in diff_positions Bool.eqb 0 (map (fun _ => true) e_cases) "
-             "(map (fun c => match snd c with Some o => match classify_headers (fst c) with Some _ => true | None => tokb (skipn 9 o) end | None => true end) e_cases).\nPrint e_spec.\n")
+             "(map (fun c => match snd c with Some o => tokb (skipn 9 o) | None => true end) e_cases).\nPrint e_spec.\n")
     rc, log = C.coq_eval_cases("C13calls", body)
     if rc != 0:
         chk.broken_obligation("in-Coq evaluation of the C13 direct-call cases failed:\n" + log[-1500:])
@@ -1033,6 +1004,10 @@ def run_calls(chk, n):
     return nd
 
 
+ODD_REQUESTS = ["(BODY[TEXT", "BODY[]<5>", "BODY[HEADER.FIELDS.NOT (TO)]", "(UID (FLAGS) BODY[1.TEXT])", "RFC822.PEEK",
+                "body.peek[header.fields (subject )]", "BODY[TEXT]<0.5>x", "BODY[HEADER.FIELDS]", "((FLAGS))", "X-UNKNOWN FLAGS",
+                "BODY[HEADER.FIELDS (X-UID FLAGS)]", "(BODY[1]<0.3> BODY[1]<0.3> BODY[1])", "BODY[] BODY.PEEK[]", "BODY[0]", "BODY[1..2]",
+                "(RFC822.SIZE]", "BODY[HEADER.FIELDS(TO)]", "BODY [TEXT]", "FLAGS)(UID", "BODY[TEXT]<5.>", "BODY[2.MIME.MIME]"]
 MACROS = {"ALL": ["FLAGS", "INTERNALDATE", "RFC822.SIZE", "ENVELOPE"], "FAST": ["FLAGS", "INTERNALDATE", "RFC822.SIZE"],
           "FULL": ["FLAGS", "INTERNALDATE", "RFC822.SIZE", "ENVELOPE", "BODY"]}
 
@@ -1070,6 +1045,12 @@ def gen_scenario(chk, hostile):
             ast = gen_request(rng, m["multipart"])
             reqs.append((mi, render_request(rng, ast), rng.random() < 0.15))
             asts[k] = ast
+    # item texts outside the AST (unterminated / unknown sections, stray parentheses, odd ranges): the item parser
+    # must read them as the model does (total on every byte string); judged by the recogniser + model equality
+    for mi in range(nm):
+        for text in rng.sample(ODD_REQUESTS, 2):
+            asts[len(reqs)] = None
+            reqs.append((mi, text, rng.random() < 0.3))
     for mi in range(nm):
         for text, ast, uidm in (("BODYSTRUCTURE", [{"k": "BODYSTRUCTURE"}], False), ("BODY", [{"k": "BODY"}], False),
                                 ("FULL", [{"k": x} for x in MACROS["FULL"]], False),
